@@ -1,2 +1,3 @@
 import Iodata.Props.C10
 import Iodata.Props.C08
+import Iodata.Props.C07
